@@ -668,6 +668,44 @@ def hash_twin_cases(ctx):
     return n
 
 
+def prefix_twin_cases(ctx):
+    """Payloads of which one is the beginning of the other - (), (1, 2), (1, 2, 3) - make different messages: unequal as
+    they are, unequal frozen, two dictionary keys; and a payload equals only what a tuple equals."""
+    n = 0
+    payloads = [(), (1,), (1, 2), (1, 2, 3), (1, 2, 3, 0), (0,), (0, 0)]
+    makers = [('sysex', lambda p: Message('sysex', data=p)), ('sysex-copied', lambda p: Message('sysex').copy(data=p)),
+              ('sysex-grown', lambda p: _grown(p)), ('unknown_meta', lambda p: UnknownMetaMessage(0x60, p)),
+              ('sequencer_specific', lambda p: MetaMessage('sequencer_specific', data=p))]
+    for what, mk in makers:
+        for i, a in enumerate(payloads):
+            for b in payloads[i + 1:]:
+                case = {'kind': 'prefix-twins', 'what': what, 'a': list(a), 'b': list(b)}
+                try:
+                    ma, mb = mk(a), mk(b)
+                    fa, fb = freeze_message(ma), freeze_message(mb)
+                    ALIVE.extend((fa, fb))
+                    ok = (ma != mb and not (ma == mb) and fa != fb and thaw_message(fa) == ma and thaw_message(fb) == mb
+                          and ma.copy() == ma and ma.copy() != mb)
+                    ctx.check('copy() == original, same class, new object', ok, f'prefix-twins:equal:{what}', case,
+                              lambda: {'a == b': ma == mb, 'frozen a == frozen b': fa == fb})
+                    try:
+                        d = {fa: 'a', fb: 'b'}
+                        ok2 = len(d) == 2 and d[freeze_message(mk(a))] == 'a' and d[freeze_message(mk(b))] == 'b' and (hash(fa) == hash(freeze_message(mk(a))))
+                    except TypeError:
+                        ok2 = True          # (unhashable list payloads of sequencer_specific: the known finding, judged elsewhere)
+                    ctx.check('equal frozen => equal hash and dict key', ok2, f'prefix-twins:keys:{what}', case, None)
+                except Exception as exc:
+                    ctx.fail('copy() == original, same class, new object', f'prefix-twins:{type(exc).__name__}', case, f'{type(exc).__name__}: {exc}')
+                n += 1
+    return n
+
+
+def _grown(p):
+    m = Message('sysex')
+    m.data += p
+    return m
+
+
 def specs_for_shard(ctx):
     rng = ctx.rng
     out = []
@@ -711,6 +749,7 @@ def run(ctx):
         n += user_subclass_cases(ctx)
     if ctx.shard == 1 % ctx.nshards:
         n += hash_twin_cases(ctx)
+        n += prefix_twin_cases(ctx)
     if ctx.shard == 3 % ctx.nshards:
         n += respec_case(ctx)
     if os.environ.get('VERIF_ENVMODE', 'default') in ('default', 'c-locale'):
@@ -735,6 +774,8 @@ def replay(ctx, case):
         coldstart.replay(ctx, case, 'copy(**ov) == fresh construction')
     elif case['kind'] == 'respec':
         respec_case(ctx)
+    elif case['kind'] == 'prefix-twins':
+        prefix_twin_cases(ctx)
     elif case['kind'] == 'hash-twins':
         hash_twin_cases(ctx)
     elif case['kind'] == 'user-subclass':
